@@ -61,3 +61,13 @@ pub fn client_config(_seed: u64, _ep: usize) -> ClientConfig {
     let q: QuicClientConfig = rustls_client().try_into().unwrap();
     ClientConfig::new(Arc::new(q))
 }
+
+/// A ring HKDF key for address-validation tokens (quinn's real token protection), derived from
+/// a seed so that runs are reproducible.
+pub fn ring_token_key(seed: u64) -> Arc<dyn proto::crypto::HandshakeTokenKey> {
+    let mut master = [0u8; 64];
+    for (i, c) in master.chunks_mut(8).enumerate() {
+        c.copy_from_slice(&crate::util::hash64(seed, &[b"ringtok", &[i as u8]]).to_le_bytes());
+    }
+    Arc::new(ring::hkdf::Salt::new(ring::hkdf::HKDF_SHA256, &[]).extract(&master))
+}
